@@ -3,11 +3,12 @@
 # applies a proposed fix to /repo, runs the unedited test-suite with the guard off, commits if it still passes
 D="$1"; M="$2"
 cd /repo || exit 9
-git apply --check "$D" || { echo "DOES NOT APPLY: $D"; exit 8; }
-git apply "$D"
+git apply --check "$D" 2>/dev/null || patch -p1 --dry-run -s < "$D" >/dev/null 2>&1 || { echo "DOES NOT APPLY: $D"; exit 8; }
+git apply "$D" 2>/dev/null || patch -p1 -s < "$D"
+find . -name "*.orig" -delete; find . -name "*.rej" -delete
 R=$(env -u AMOCO_VERIF /venv/bin/python -m pytest -q -p no:cacheprovider --timeout=900 2>&1 | tail -1)
 echo "$R"
 case "$R" in
-  *"214 passed"*) git commit -qa -F "$M" && git log --oneline | head -1 ;;
-  *) echo "SUITE CHANGED - reverting"; git checkout -- . ; exit 7 ;;
+  *"214 passed"*) git add -A; git commit -q -F "$M" && echo "$(git log --oneline | head -1)  <= $(basename $D)" ;;
+  *) echo "SUITE CHANGED - reverting $D"; git checkout -- . ; git clean -fdq; exit 7 ;;
 esac
